@@ -1,7 +1,68 @@
-(* Corr/C17.v — reset first: at the Interface boundary, and below the real transports (decoded pin log; the
-   data pins may idle low or high before the first word) *)
-Require Import Model.Base Corr.Common Corr.Init Corr.L2 Corr.DrawL.
-Definition check (x : lcase * lout) : Z :=
+(* Corr/C17.v — reset first: at the Interface boundary, below the real transports (decoded pin log; the
+   data pins may idle low or high before the first word), and for an initialisation that is RETRIED over
+   the same transport after a failed first attempt *)
+Require Import Model.Base Model.Events Model.Builder Model.InitLang Model.Display Model.Spi Model.Parallel Model.Fault
+               Corr.Common Corr.Init Corr.L2 Corr.DrawL Oracle.InitSpec.
+Require Import Gen.Consts.
+Open Scope Z_scope.
+
+Inductive c17case := C17L (c : lcase) | C17R (pc : pcase).
+(* retry: result and pin log of the faulted first init, result and pin log of the second *)
+Inductive c17out := C17LO (o : lout) | C17RO (r1 : res) (l1 : list l2op) (r2 : res) (l2 : list l2op).
+
+(* the k-th fallible operation of the first Builder::init fails; a second Builder::init with the same model and
+   options then runs over the same transport (`&mut di`), starting from whatever state the fault left it in *)
+Definition run_retry (pc : pcase) : option c17out :=
+  match model_of_id (pc_model pc) with
+  | None => None
+  | Some m =>
+      let ts0 := tstate_of pc m in
+      let '(t, r) := builder_init (pc_md pc) (m_fw m) (m_fh m) (pc_rst pc) (pc_opts pc)
+                       (run_init (kind_of_iface (pc_iface pc)) (m_color m) (pc_opts pc) (m_prog m)) in
+      let '(an, ts1, o1, sane) := trans_events (pc_md pc) ts0 t in
+      if negb sane then None
+      else
+        match cut_fault (pc_init_fail pc) ts0 an with
+        | Some (l, failing, tsf) =>
+            let '(an2, _, o2, sane2) := trans_events (pc_md pc) tsf t in
+            if negb sane2 then None
+            else
+              Some (C17RO (RErr (match failing with ORst _ => EInitResetPin | _ => EInitInterface (tag_of failing ts0) end))
+                          (merge_delays l)
+                          (match r, o2 with Ok _, Ok _ => ROk | Ok _, x => res_of x | x, _ => res_of x end)
+                          (merge_delays (map fst an2)))
+        | None =>
+            (* the fault index lies beyond the last operation of this init: both attempts run to the end *)
+            let '(an2, _, o2, sane2) := trans_events (pc_md pc) ts1 t in
+            if negb sane2 then None
+            else
+              Some (C17RO (match r, o1 with Ok _, Ok _ => ROk | Ok _, x => res_of x | x, _ => res_of x end)
+                          (merge_delays (map fst an))
+                          (match r, o2 with Ok _, Ok _ => ROk | Ok _, x => res_of x | x, _ => res_of x end)
+                          (merge_delays (map fst an2)))
+        end
+  end.
+
+Definition retry_eqb (a b : c17out) : bool :=
+  match a, b with
+  | C17RO r1 l1 r2 l2, C17RO r1' l1' r2' l2' => res_beq r1 r1' && l2ops_eqb l1 l1' && res_beq r2 r2' && l2ops_eqb l2 l2'
+  | _, _ => false
+  end.
+
+(* what the panel sees of the second initialisation, decoded from the pins as the first attempt left them *)
+Definition retry_ok (st0 : lines) (pc : pcase) (m : model_def) (o : c17out) : bool :=
+  match o with
+  | C17RO r1 l1 r2 l2 =>
+      match decode_seq pc m st0 true [(is_err r1, l1); (false, l2)] with
+      | [ev1; ev2] =>
+          res_beq r2 ROk && reset_first_ok (pc_rst pc) ev2 &&
+          (is_err r1 || reset_first_ok (pc_rst pc) ev1)
+      | _ => false
+      end
+  | _ => false
+  end.
+
+Definition check_l (x : lcase * lout) : Z :=
   match x with
   | (L1 pc, LO1 p) => code (corr_init pc p) (reset_judge pc p)
   | (L2 pc, LO2 p) =>
@@ -13,4 +74,21 @@ Definition check (x : lcase * lout) : Z :=
       end
   | _ => 3
   end.
-Definition model_out := Corr.DrawL.model_out.
+
+Definition check (x : c17case * c17out) : Z :=
+  match x with
+  | (C17L c, C17LO o) => check_l (c, o)
+  | (C17R pc, C17RO r1 l1 r2 l2) =>
+      match model_of_id (pc_model pc) with
+      | Some m => code (match run_retry pc with Some mo => retry_eqb mo (snd x) | None => false end)
+                       (retry_ok (lines0 (bus_width pc)) pc m (snd x) && retry_ok (lines_high (bus_width pc)) pc m (snd x))
+      | None => 3
+      end
+  | _ => 3
+  end.
+
+Definition model_out (c : c17case) : option c17out :=
+  match c with
+  | C17L c => option_map C17LO (Corr.DrawL.model_out c)
+  | C17R pc => run_retry pc
+  end.
